@@ -31,7 +31,9 @@ THEOREMS = [
     "C10_providedBy_eq_py", "C10_providedBy_isinstance_refuted", "C10_OSD_descr_get_eq_py",
     "C10_CPB_descr_get_eq_py", "C10_richcompare_eq_py", "C10_binop_c_eq_py", "C10_richcompare_x_eq_py",
     "C10_richcompare_nonstr_refuted", "C10_lookup_eq_py", "C10_lookup1_eq_py", "C10_adapter_hook_eq_py",
-    "C10_lookupAll_subscriptions_eq_py", "C10_call_eq_py",
+    "C10_lookupAll_subscriptions_eq_py", "C10_verifying_verify_eq_py", "C10_verifying_uninitialised_refuted",
+    "C10_verifying_entry_points_eq_py", "C10_verifying_error_order", "C10_verifying_pending_verify_unobservable",
+    "C10_verifying_programs_eq_py", "C10_call_eq_py",
 ]
 
 N_FOREIGN = 16
@@ -58,6 +60,7 @@ def odd_catalogue(ifaces):
         {"declare": [i0], "iattr": {"__provides__": V("none")}},
         {"declare": [i0], "iattr": {"__provides__": V("partial")}},
         {"declare": [i0], "iattr": {"__provides__": V("partial_call")}},
+        {"declare": [i0], "iattr": {"__provides__": V("call_badbool")}},
         {"declare": [i0], "iattr": {"__provides__": V("bare_sb")}},
         {"declare": [i0], "iattr": {"__provides__": V("decl", [i1])}},
         {"declare": [i0], "iattr": {"__provides__": V("provides", [i1])}},
@@ -124,6 +127,100 @@ def odd_catalogue(ifaces):
 
 
 # --------------------------------------------------------------------------- program generator
+
+def gen_comp_ops(rng, st, ifaces, classes, nobj, n_plain):
+    """a few Components-level calls (zope.interface.registry): utilities, adapters, subscription
+    adapters, handlers, listings, re-basing; queries derived from earlier registrations"""
+    out = []
+    if st["n"] == 0 or (st["n"] < 3 and rng.random() < 0.2):
+        bs = [b for b in range(st["n"]) if rng.random() < 0.6][-2:]
+        out.append(["newcomp", bs])
+        st["n"] += 1
+    ci = rng.randrange(st["n"])
+    names = [0, 0, 1, "X"] if rng.random() < 0.1 else [0, 0, 1]
+    for _ in range(rng.choice([1, 2, 3])):
+        v = RG.gen_value(rng)
+        i1, i2 = rng.choice(ifaces), rng.choice(ifaces + [0])
+        req = [rng.choice(ifaces + classes) for _ in range(rng.choice([1, 1, 2]))]
+        nm = rng.choice(names)
+        objs = [["o", rng.randrange(n_plain)] for _ in range(len(req))]
+        if st["seen"] and rng.random() < 0.6:
+            i1, req, nm = rng.choice(st["seen"])
+            objs = [["o", rng.randrange(n_plain)] for _ in range(len(req))]
+        kind = rng.choice(["registerUtility", "registerUtility", "unregisterUtility", "queryUtility", "queryUtility",
+                           "getUtility", "getUtilitiesFor", "getAllUtilitiesRegisteredFor", "registerAdapter",
+                           "registerAdapter", "unregisterAdapter", "queryAdapter", "getAdapter", "queryMultiAdapter",
+                           "getAdapters", "registerSubscriptionAdapter", "unregisterSubscriptionAdapter",
+                           "subscribers", "registerHandler", "unregisterHandler", "handle", "registered", "setbases"])
+        ci = rng.randrange(st["n"])
+        if kind in ("registerUtility", "unregisterUtility"):
+            st["seen"].append((i1, req, nm))
+            out.append(["comp", kind, ci, v, i1, nm])
+        elif kind in ("queryUtility", "getUtility"):
+            out.append(["comp", kind, ci, i1, nm])
+        elif kind in ("getUtilitiesFor", "getAllUtilitiesRegisteredFor"):
+            out.append(["comp", kind, ci, i2])
+        elif kind in ("registerAdapter", "unregisterAdapter"):
+            st["seen"].append((i1, req, nm))
+            out.append(["comp", kind, ci, v, req, i1, nm])
+        elif kind in ("queryAdapter", "getAdapter"):
+            out.append(["comp", kind, ci, objs[0], i1, nm])
+        elif kind == "queryMultiAdapter":
+            out.append(["comp", kind, ci, objs, i1, nm])
+        elif kind in ("getAdapters", "subscribers"):
+            out.append(["comp", kind, ci, objs, i1])
+        elif kind in ("registerSubscriptionAdapter", "unregisterSubscriptionAdapter"):
+            st["seen"].append((i1, req, 0))
+            out.append(["comp", kind, ci, v, req, i1])
+        elif kind in ("registerHandler", "unregisterHandler"):
+            st["seen"].append((i1, req, 0))
+            out.append(["comp", kind, ci, v, req])
+        elif kind == "handle":
+            out.append(["comp", kind, ci, objs])
+        elif kind == "registered":
+            out.append(["comp", kind, ci])
+        else:
+            cand = [b for b in range(st["n"]) if b < ci]
+            rng.shuffle(cand)
+            out.append(["comp", "setbases", ci, sorted(cand[: rng.choice([0, 1, 2])], reverse=True)])
+    return out
+
+
+def gen_verifying_programs(world, ifaces, classes):
+    """registries below base registries whose _generation changes between calls: a miss is cached,
+    the base is mutated, the call is repeated with a non-string name and with a lazy / raising
+    required, then for real; then the registry is re-based, then its new base is re-based"""
+    req_i, prov_i = ifaces[0], ifaces[1]
+    I = ["S", prov_i]
+    R = ["S", req_i]
+    cases = []
+    for flavour in ("verifying", "push"):
+        for entry in ("lookup", "lookup1", "queryAdapter", "adapter_hook", "queryMultiAdapter", "lookupAll", "names",
+                      "subscriptions", "subscribers"):
+            def q(name=None, form="tuple", default=True):
+                if entry == "lookup1":
+                    req = ["raw", [R]]
+                elif entry in ("queryAdapter", "adapter_hook"):
+                    req = ["raw", [["o", 0]]]
+                elif entry in ("queryMultiAdapter", "subscribers"):
+                    req = [form, [["o", 0]]]
+                else:
+                    req = [form, [R]]
+                if entry in ("lookupAll", "names", "subscriptions", "subscribers"):
+                    return ["xreg", entry, 1, req, I, None, False]
+                return ["xreg", entry, 1, req, I, name, default]
+            sub = entry in ("subscriptions", "subscribers")
+            mut0 = ["subscribe", 0, [0], prov_i, [1, 1]] if sub else ["register", 0, [0], prov_i, 0, [1, 1]]
+            mut2 = ["subscribe", 2, [0], prov_i, [3, 3]] if sub else ["register", 2, [0], prov_i, 0, [3, 3]]
+            mut3 = ["subscribe", 3, [0], prov_i, [2, 1]] if sub else ["register", 3, [0], prov_i, 0, [2, 1]]
+            ops = [["newreg", flavour, []], ["newreg", flavour, [0]], ["newreg", flavour, []], ["newreg", flavour, []],
+                   q(), q(), mut0, q(["F", 5]), q(None, "genraise"), q(None, "gen"), q(), q(default=False),
+                   ["setregbases", 1, [2]], q(), mut2, q(["F", 0]), q(),
+                   ["setregbases", 2, [3]], q(None, "list"), mut3, q(), ["unregister", 3, [0], prov_i, 0, None],
+                   ["unsubscribe", 3, [0], prov_i, None], q(), ["setregbases", 1, []], q()]
+            cases.append({"world": world, "ops": ops, "matrix": True})
+    return cases
+
 
 REENT_ENTRIES = ["lookup", "lookup1", "queryAdapter", "adapter_hook", "queryMultiAdapter", "lookupAll", "names",
                  "subscriptions", "subscribers"]
@@ -272,9 +369,10 @@ def gen_program(rng, n_ops=40, stress=None):
     head, tail = reg_ops[:n_regs], reg_ops[n_regs:]
     ops = list(head)
     cached_none = False
+    comp_state = {"n": 0, "seen": []}
 
     def x_required(arity=None):
-        form = rng.choice(["tuple", "tuple", "list", "gen", "gen"])
+        form = rng.choice(["tuple", "tuple", "list", "gen", "gen", "genraise"])
         ar = rng.choice([0, 1, 1, 1, 2]) if arity is None else arity
         items = []
         for _ in range(ar):
@@ -380,9 +478,11 @@ def gen_program(rng, n_ops=40, stress=None):
             if q < 0.3:
                 return [["adapt", iface, r_obj()]]
             return [["call", iface, r_obj(), rng.choice([False, True, True, "falsy"])]]
-        if r < 0.86:      # a lookup during which the registry changes, then the same lookup again
+        if r < 0.855:      # a lookup during which the registry changes, then the same lookup again
             return [gen_reent(rng, n_regs, ifaces, classes)]
-        if r < 0.87:
+        if r < 0.90:
+            return gen_comp_ops(rng, comp_state, ifaces, classes, nobj, n_plain)
+        if r < 0.91:
             return [rng.choice([["icsub", rng.choice(["adapt", "adapt_sub", "providedBy"]), r_obj(), rng.random() < 0.5]])]
         # registry entry points with odd arguments / explicit defaults
         reg = rng.randrange(n_regs)
@@ -503,6 +603,18 @@ def gen_matrix(rng):
                             op[7][3] = prov_i
                         ops.append(op)
                         cases.append({"world": world, "ops": ops, "matrix": True})
+    cases.extend(gen_verifying_programs(world, ifaces, classes))
+    # both arguments bad: a lazy required that raises and an unhashable provided (known finding G15)
+    for meth in ("lookup", "lookupAll", "subscriptions", "names", "queryMultiAdapter", "subscribers"):
+        cases.append({"world": world, "matrix": True,
+                      "ops": [["newreg", "push", []], ["xreg", meth, 0, ["genraise", []], ["F", 2], None, False]]})
+    # Components-level programs
+    for k in range(40):
+        st = {"n": 0, "seen": []}
+        ops = []
+        while len(ops) < 25:
+            ops.extend(gen_comp_ops(rng, st, ifaces, classes, 2, 2))
+        cases.append({"world": world, "ops": ops, "matrix": True})
     # falsy-but-not-None results wherever a result is tested against None
     for fv in (120, 220, 300, 301, 302):
         for o in (["o", 0], ["odd", 0]):
@@ -743,6 +855,23 @@ def _is_g8(op, tc, tp):
 
 
 G11_KEY = "G11:spec-method-argument-by-keyword"
+G15_KEY = "G15:raising-lazy-required-vs-unhashable-provided-error-order"
+G14_KEY = "G14:adapt-ignores-error-of-truth-value"
+
+
+def _mentions_badbool(case, op):
+    odd = case["world"].get("odd", [])
+
+    def walk(x):
+        if isinstance(x, list):
+            if len(x) == 2 and x[0] == "odd" and isinstance(x[1], int) and x[1] < len(odd):
+                if "call_badbool" in json.dumps(odd[x[1]]):
+                    return True
+            return any(walk(y) for y in x)
+        return False
+    return walk(op)
+
+
 G12_KEY = "G12:interfaceclass-subclass-adapt-ignored-by-C-call"
 G13_KEY = "G13:providedBy-override-ignored-by-C-adapt"
 
@@ -763,6 +892,15 @@ def diff_key(case, tok_c, tok_py, i):
     op = case["ops"][i] if i < len(case["ops"]) else ["<length>"]
     if _is_g8(op, tok_c, tok_py):
         return G8_KEY
+    if tok_c == "EXC:SystemError" or (isinstance(tok_c, list) and tok_c and tok_c[0] == "EXC:SystemError"):
+        if _mentions_badbool(case, op) and "ValueError" in json.dumps(tok_py):
+            return G14_KEY
+    if (op[0] == "xreg" and op[3][0] == "genraise" and op[4][0] == "F" and op[4][1] in (2, 11)
+            and tok_c == "EXC:ValueError" and tok_py == "EXC:TypeError"):
+        # C resolves a lazy ``required`` before it fetches the cache for ``provided`` (on purpose, see
+        # the comment in _lookup), Python afterwards: with both arguments bad the errors come in a
+        # different order
+        return G15_KEY
     if op[0] == "icsub":
         return G13_KEY if op[1] == "providedBy" else G12_KEY
     if op[0] in ("call", "adapt") and op[1][0] == "X" and _provby_lineage(case, op[1][1]) and tok_c != tok_py:
